@@ -424,7 +424,15 @@ impl Prop for C17 {
         check_plain(&plain, &ep)?;
         // repeated evaluation: same labels, same numbers up to one printed unit
         let ep2 = cte::incorpora_demanda_renovable_acs_nrb(eval_sound(&inp.comps, &inp.factors, e.k, e.area, e.lm)?);
-        let (r1, r2) = (parse_report(&plain), parse_report(&ep2.to_plain()));
+        // RER lines are ratios of rounding residues when the total primary energy is noise
+        // (DESIGN 3.4): their numbers are then left out of the repeat comparison
+        let den = (ep.balance.we.b.ren + ep.balance.we.b.nren).abs() as f64;
+        let rer_is_noise = {
+            let sc = inp.scales(e.area);
+            !(den >= 1e-3 * sc.tot_weighted && den > 0.0)
+        };
+        let drop_rer = |t: &str| -> String { if rer_is_noise { t.lines().filter(|l| !l.starts_with("RER")).collect::<Vec<_>>().join("\n") } else { t.to_string() } };
+        let (r1, r2) = (parse_report(&drop_rer(&plain)), parse_report(&drop_rer(&ep2.to_plain())));
         ensure!(r1.labels == r2.labels, "stable_order", "two evaluations print different line sequences");
         ensure!(r1.all_numbers.len() == r2.all_numbers.len(), "stable_order", "two evaluations print a different amount of numbers");
         let sc = inp.scales(e.area);
@@ -514,8 +522,11 @@ pub fn check_cli(e: &BFCase, _ctx: &mut Ctx) -> CheckResult {
         let ep = energy_performance(&comps, &f, e.k, e.area, e.lm).map_err(|x| Failure::new("harness", x.to_string()))?;
         let b = ep.balance_m2.we.b;
         let j = epj.balance_m2.we.b;
+        let lines = crate::model::lines_from_components(&comps);
+        let sc = crate::tol::Scales::from_inputs(&lines, e.b.n, &crate::model::FTable::from_factors(&f), e.area as f64);
+        let noise = 2.0 * crate::tol::tol(sc.tot_weighted, sc.n) / e.area as f64;
         for (name, x, y) in [("ren", j.ren, b.ren), ("nren", j.nren, b.nren), ("co2", j.co2, b.co2)] {
-            ensure!((x - y).abs() as f64 <= 0.0015 + 2e-5 * (y.abs() as f64), "cli_result", "the JSON file reports C_ep {} = {} but evaluating the same inputs in process gives {}", name, x, y);
+            ensure!((x - y).abs() as f64 <= 0.0015 + noise + 2e-5 * (y.abs() as f64), "cli_result", "the JSON file reports C_ep {} = {} but evaluating the same inputs in process gives {}", name, x, y);
         }
         Ok(())
     })();
